@@ -37,6 +37,10 @@ def run(ctx) -> None:
                  env={"MAXRECS": 1 if ctx.quick else 2, "EMIT": 1, "BIG": 1}, heap="3g")
     ctx.add_tlc(gb, "MC_C13 generator, maximum-length records")
     bigs = [v for v in gb.printed if "file" in v]
+    gb2 = tlc.run("MC_C13", "INIT Init\nNEXT Next\nCHECK_DEADLOCK FALSE\nINVARIANT ReadBack\nINVARIANT Emit\n", tag="c13.genbuf",
+                  env={"MAXRECS": 1, "EMIT": 1, "BIG": 2}, heap="3g")
+    ctx.add_tlc(gb2, "MC_C13 generator, file lengths around 8192 (reader buffer size)")
+    bufs = [v for v in gb2.printed if "file" in v]
     if len(vecs) < 20 or not bigs:
         raise tlc.TLCFailure("MC_C13 generator produced too few vectors")
     tasks, meta = [], []
@@ -60,6 +64,8 @@ def run(ctx) -> None:
                 add(v, 0, rnd.choice(PLACEMENTS), f"truncated@{t}", f[:t])
         add(v, 0, "first", "no-header", f[1:])
         add(v, 0, "between", "bad-magic", [80, 65, 84, 67, 88] + f[5:])
+    for v in bufs:
+        add(v, 0, "between", "", v["file"])
     for v in bigs:
         for d, p in ((0, "first"), (0x200, "between"), (-0x200, "after")):
             add(v, d, p, "", v["file"])
